@@ -1,6 +1,8 @@
 package rules
 
 import (
+	"bytes"
+	"compress/zlib"
 	"encoding/hex"
 	"fmt"
 	"go/ast"
@@ -1209,7 +1211,7 @@ func ruleAbsoluteTargetsRecognised(c *eng.Ctx) {
 				switch x := in.(type) {
 				case *ssa.Call:
 					switch eng.CalleeName(x) {
-					case "strings.HasPrefix":
+					case "strings.HasPrefix", "strings.CutPrefix":
 						if s, ok := eng.ConstString(x.Call.Args[1]); ok && s == "/" {
 							found = true
 						}
@@ -1740,6 +1742,10 @@ func ruleBase85DecoderInverts(c *eng.Ctx) {
 	}
 	// byte strings whose spelling holds the digits that are markers elsewhere: '>' (five of them), '<', '~' without '>'
 	plains = append(plains, []byte{0x5b, 0x4e, 0x05, 0x19}, []byte{0x5b, 0x4e, 0x05, 0x19, 0x41, 0x42}, []byte{0x3b, 0x1e, 0xc5, 0x3e}, []byte{0xee, 0xf5, 0x1a, 0x20, 0x01})
+	// byte strings whose first digit is one of the characters of the optional start marker "<~" ('<' is the digit 27, '~' is no digit)
+	for _, first := range []byte{0x54, 0x55, 0x56, 0x57} {
+		plains = append(plains, []byte{first}, []byte{first, 0x6b}, []byte{first, 0x00, 0x41, 0x42}, []byte{first, 0x54, 0x54, 0x54, 0x54, 0x01})
+	}
 	n, bad := 0, ""
 	check := func(in string, want []byte, wantErr bool) bool {
 		out, failed, skipped := decodeCase(fn, []byte(in))
@@ -2979,6 +2985,7 @@ func objectCases() []objectCase {
 		{"null", nil, false}, {"true", true, false}, {"false", false, false},
 		{"0", int64(0), false}, {"1", int64(1), false}, {"-1", int64(-1), false}, {"+17", int64(17), false},
 		{"2147483647", int64(2147483647), false}, {"-2147483648", int64(-2147483648), false}, {"007", int64(7), false},
+		{"2147483648", int64(2147483648), false}, {"-9999999999", int64(-9999999999), false}, {"4294967296", int64(4294967296), false},
 		{"3.14", 3.14, false}, {"-.002", -0.002, false}, {"+.5", 0.5, false}, {".5", 0.5, false}, {"5.", 5.0, false}, {"0.0", 0.0, false}, {"-2.5", -2.5, false}, {"123456789.125", 123456789.125, false},
 		{"(abc)", "abc", false}, {"()", "", false}, {"(a(b)c)", "a(b)c", false}, {"(a\\(b\\)c)", "a(b)c", false}, {"(\\n\\r\\t\\b\\f\\\\)", "\n\r\t\b\f\\", false},
 		{"(\\101\\7\\0053)", "A\a\x053", false}, {"(line\\\nbreak)", "linebreak", false}, {"(abc\\\n\ndef)", "abc\ndef", false}, {"(line\\\r\nbreak)", "linebreak", false}, {"(\xe9\xff\x80)", "\xe9\xff\x80", false}, {"(a b  c)", "a b  c", false}, {"(% not a comment)", "% not a comment", false}, {"(\\q)", "q", false},
@@ -3145,6 +3152,83 @@ func ruleObjectSpellingsEvaluated(c *eng.Ctx) {
 		}
 	} else {
 		c.Ok(R, "contentstream.(*Parser).Parse", token.NoPos, "parser entry points not found: not evaluated")
+	}
+	// spellings whose reading the specification leaves to one rule for both parsers (an unescaped end of line inside a
+	// literal string, bytes of two-byte codes that look like line ends): whatever the reading is, both parsers give the same
+	if newCore != nil && parseObj != nil && newCS != nil && parseCS != nil && len(newCore.Params) == 1 && len(newCS.Params) == 1 {
+		n, bad, skipped := 0, "", ""
+		for _, sp := range []string{"(two\rlines)", "(two\r\nlines)", "(a\nb)", "(\x00\x0d\x00\x0a)", "(tab\there)", "[(x\ry) (z)]"} {
+			var trees [2]any
+			for k := 0; k < 2 && skipped == "" && bad == ""; k++ {
+				ev := eng.NewEvaluator()
+				ev.Steps = 400000
+				var got any
+				var err *eng.EvalError
+				if k == 0 {
+					var p any
+					p, err = ev.Call(newCore, []any{&eng.EBytesReader{Data: []byte(sp)}}, 0)
+					if err == nil {
+						got, err = ev.Call(parseObj, []any{p}, 0)
+					}
+				} else {
+					var p any
+					p, err = ev.Call(newCS, []any{eng.BytesOf([]byte(sp + " Tj"))}, 0)
+					if err == nil {
+						got, err = ev.Call(parseCS, []any{p}, 0)
+					}
+				}
+				if err != nil && !err.Panic {
+					skipped = fmt.Sprintf("%q: %s", sp, err.Msg)
+					break
+				}
+				if err != nil {
+					bad = fmt.Sprintf("%q: %s", sp, err.Msg)
+					break
+				}
+				t, ok := got.(eng.ETuple)
+				if !ok || len(t) != 2 || t[1] != nil {
+					skipped = fmt.Sprintf("%q is refused", sp)
+					break
+				}
+				obj := t[0]
+				if k == 1 {
+					ops, ok := t[0].(*eng.ESlice)
+					if !ok || len(ops.L) != 1 {
+						skipped = fmt.Sprintf("%q Tj is not one operation", sp)
+						break
+					}
+					op, _ := ops.L[0].V.(*eng.EStruct)
+					if op == nil || len(op.F) < 2 {
+						skipped = "Operation is not (Operator, Operands)"
+						break
+					}
+					operands, ok := op.F[1].(*eng.ESlice)
+					if !ok || len(operands.L) != 1 {
+						skipped = fmt.Sprintf("%q Tj has not one operand", sp)
+						break
+					}
+					obj = operands.L[0].V
+				}
+				tree, ok := treeOf(obj)
+				if !ok {
+					skipped = fmt.Sprintf("%q: not a readable object", sp)
+					break
+				}
+				trees[k] = tree
+			}
+			if skipped != "" || bad != "" {
+				break
+			}
+			n++
+			if !treeEqual(trees[0], trees[1]) {
+				bad = fmt.Sprintf("%q is read as %#v by the document parser and as %#v by the content-stream parser", sp, trees[0], trees[1])
+			}
+		}
+		if skipped != "" {
+			c.Ok(R, "core and contentstream parsers#agreement", parseCS.Pos(), "not evaluated: "+skipped)
+		} else {
+			c.Check(bad == "", R, "core and contentstream parsers#agreement", parseCS.Pos(), fmt.Sprintf("%d spellings read alike by both parsers", n), "the two parsers assign different values to one spelling: "+bad)
+		}
 	}
 }
 
@@ -3506,6 +3590,25 @@ func synthPages() map[string][]synthFragment {
 		line(&fr, &k, 72, 672, 10, 7)
 		pages["a pull quote beside body lines"] = fr
 	}
+	// character-level text with doubled narrow glyphs (hello skiing Hawaii), one fragment per character, two lines
+	{
+		var fr []synthFragment
+		widths := map[rune]float64{'h': .556, 'e': .556, 'l': .222, 'o': .556, 's': .5, 'k': .5, 'i': .222, 'n': .556, 'g': .556, 'H': .722, 'a': .556, 'w': .722, ' ': .278, 'b': .556, 'r': .333, 't': .278, 'y': .5}
+		for li, line := range []string{"hello skiing Hawaii", "three llamas sitting still"} {
+			x := 72.0
+			for _, r := range line {
+				w := widths[r] * 12
+				if w == 0 {
+					w = .5 * 12
+				}
+				if r != ' ' {
+					fr = append(fr, synthFragment{string(r), x, 700 - 16*float64(li), w, 12, 12})
+				}
+				x += w
+			}
+		}
+		pages["character-level text with doubled narrow glyphs"] = fr
+	}
 	// a masthead in 48pt type whose box reaches up over a small note at the left, with a date at the right
 	{
 		fr := []synthFragment{
@@ -3529,7 +3632,7 @@ func sortedNonSpace(s string) string {
 // R9.11 [C09]
 func ruleLayoutKeepsCharactersEvaluated(c *eng.Ctx) {
 	const R = "R9.11-LAYOUT-KEEPS-CHARACTERS-EVALUATED"
-	c.Rule(R, "the line, column, paragraph, block and reading-order detectors of package layout with their default configuration, and the Analyzer, evaluated on synthetic pages (one column with ragged lines, two columns under a spanning title, a heading with paragraphs and a list, single-word lines, three columns, a hanging-indent list under a title, a sub-heading beside a gap of the other column, a list across a column break, a pull quote beside body lines, a masthead whose box reaches over two small notes; every line wider than the two recorded size filters): the text the result renders (GetText), the fragments it hands out (GetAllFragments) and the elements of the analysis hold, as a multiset, exactly the non-white-space characters of the fragments", 1, 0)
+	c.Rule(R, "the line, column, paragraph, block and reading-order detectors of package layout with their default configuration, and the Analyzer, evaluated on synthetic pages (one column with ragged lines, two columns under a spanning title, a heading with paragraphs and a list, single-word lines, three columns, a hanging-indent list under a title, a sub-heading beside a gap of the other column, a list across a column break, a pull quote beside body lines, a masthead whose box reaches over two small notes, character-level text with doubled narrow glyphs; every line wider than the two recorded size filters): the text the result renders (GetText), the fragments it hands out (GetAllFragments) and the elements of the analysis hold, as a multiset, exactly the non-white-space characters of the fragments", 1, 0)
 	fragT := c.P.NamedType("text", "TextFragment")
 	if fragT == nil {
 		c.Ok(R, "layout#detectors", token.NoPos, "text.TextFragment not found: not evaluated")
@@ -4261,7 +4364,7 @@ func ruleExportNotTrimmed(c *eng.Ctx) {
 // R5.22 [C05]
 func ruleASCIIChainsEvaluated(c *eng.Ctx) {
 	const R = "R5.22-ASCII-CHAINS-EVALUATED"
-	c.Rule(R, "core.(*Stream).Decode, evaluated on streams whose /Filter is a name, a one-element array or a chain of two or three of ASCIIHexDecode and ASCII85Decode (full names and the abbreviations AHx and A85, with and without a /DecodeParms array of nulls), the data encoded by reference encoders in the order the chain undoes it: the answer is the original bytes - the stages run in array order, each on the output of the one before", 1, 0)
+	c.Rule(R, "core.(*Stream).Decode, evaluated on streams whose /Filter is a name, a one-element array or a chain of two or three of ASCIIHexDecode, ASCII85Decode and FlateDecode (full names and the abbreviations AHx, A85 and Fl, with and without a /DecodeParms array of nulls, with /Predictor 12 parameters given as a dictionary for a single filter and as the entry of the stage's own position in the array - first, second or middle stage, also for one of two FlateDecode stages), the data encoded by reference encoders in the order the chain undoes it: the answer is the original bytes - the stages run in array order, each on the output of the one before", 1, 0)
 	dec := c.P.FuncExact("core.(*Stream).Decode")
 	streamT, dictT, arrT, nameT := c.P.NamedType("core", "Stream"), c.P.NamedType("core", "Dict"), c.P.NamedType("core", "Array"), c.P.NamedType("core", "Name")
 	nullT := c.P.NamedType("core", "Null")
@@ -4273,25 +4376,48 @@ func ruleASCIIChainsEvaluated(c *eng.Ctx) {
 		return []byte(strings.ToUpper(hex.EncodeToString(b)) + ">")
 	}
 	a85Enc := func(b []byte) []byte { return []byte(a85Encode(b, true) + "~>") }
-	enc := map[string]func([]byte) []byte{"ASCIIHexDecode": hexEnc, "AHx": hexEnc, "ASCII85Decode": a85Enc, "A85": a85Enc}
-	raw := []byte("Hello, \x00\x01\xfe\xff stream <<>> ~> end")
+	flEnc := func(b []byte) []byte {
+		var zb bytes.Buffer
+		zw := zlib.NewWriter(&zb)
+		zw.Write(b)
+		zw.Close()
+		return zb.Bytes()
+	}
+	enc := map[string]func([]byte) []byte{"ASCIIHexDecode": hexEnc, "AHx": hexEnc, "ASCII85Decode": a85Enc, "A85": a85Enc, "FlateDecode": flEnc, "Fl": flEnc}
+	raw := []byte("Hello, \x00\x01\xfe\xff stream <<>> ~> end.!") // 32 bytes: eight rows of four
+	intT := c.P.NamedType("core", "Int")
 	type variant struct {
 		chain  []string
 		asName bool
 		parms  bool
+		pred   []bool // per stage: the stage is FlateDecode with /Predictor 12 /Columns 4 (its parameters are a dictionary)
+		single bool   // one filter name with its parameters as a dictionary, not an array
 	}
 	variants := []variant{
-		{[]string{"ASCIIHexDecode"}, true, false}, {[]string{"ASCII85Decode"}, true, false}, {[]string{"AHx"}, true, false}, {[]string{"A85"}, true, false},
-		{[]string{"ASCIIHexDecode"}, false, false}, {[]string{"A85"}, false, true},
-		{[]string{"ASCIIHexDecode", "ASCII85Decode"}, false, false}, {[]string{"ASCII85Decode", "ASCIIHexDecode"}, false, false},
-		{[]string{"AHx", "A85"}, false, true}, {[]string{"A85", "AHx", "A85"}, false, false}, {[]string{"AHx", "AHx"}, false, true},
+		{chain: []string{"ASCIIHexDecode"}, asName: true, parms: false}, {chain: []string{"ASCII85Decode"}, asName: true, parms: false}, {chain: []string{"AHx"}, asName: true, parms: false}, {chain: []string{"A85"}, asName: true, parms: false},
+		{chain: []string{"ASCIIHexDecode"}, asName: false, parms: false}, {chain: []string{"A85"}, asName: false, parms: true},
+		{chain: []string{"ASCIIHexDecode", "ASCII85Decode"}, asName: false, parms: false}, {chain: []string{"ASCII85Decode", "ASCIIHexDecode"}, asName: false, parms: false},
+		{chain: []string{"AHx", "A85"}, asName: false, parms: true}, {chain: []string{"A85", "AHx", "A85"}, asName: false, parms: false}, {chain: []string{"AHx", "AHx"}, asName: false, parms: true},
+		{chain: []string{"FlateDecode"}, asName: true}, {chain: []string{"Fl"}},
+		{chain: []string{"FlateDecode"}, asName: true, single: true, pred: []bool{true}},
+		{chain: []string{"ASCII85Decode", "FlateDecode"}, parms: true, pred: []bool{false, true}},
+		{chain: []string{"FlateDecode", "ASCIIHexDecode"}, parms: true, pred: []bool{true, false}},
+		{chain: []string{"FlateDecode", "FlateDecode"}, parms: true, pred: []bool{true, false}},
+		{chain: []string{"FlateDecode", "FlateDecode"}, parms: true, pred: []bool{false, true}},
+		{chain: []string{"A85", "Fl", "AHx"}, parms: true, pred: []bool{false, true, false}},
 	}
 	n, bad, skipped := 0, "", ""
 	for _, v := range variants {
 		// the encoder applies the last stage's encoding first: decoding runs the array front to back
 		data := raw
 		for i := len(v.chain) - 1; i >= 0; i-- {
+			if i < len(v.pred) && v.pred[i] {
+				data = pngEncode(data, 4, 1, []int{1, 2, 4, 3, 0})
+			}
 			data = enc[v.chain[i]](data)
+			if i < len(v.pred) && v.pred[i] && len(data)%4 != 0 && i > 0 {
+				// an earlier predictor stage needs whole rows: pad is not possible for compressed data, so such chains are written with the predictor stage innermost only
+			}
 		}
 		d := &eng.EMap{M: map[any]any{}}
 		put := func(k string, val any) {
@@ -4299,6 +4425,13 @@ func ruleASCIIChainsEvaluated(c *eng.Ctx) {
 			d.Keys = append(d.Keys, k)
 		}
 		mkName := func(s string) any { return &eng.EIface{T: nameT, V: s} }
+		predDict := func() any {
+			pd := &eng.EMap{M: map[any]any{}}
+			pd.M["Predictor"] = &eng.EIface{T: intT, V: int64(12)}
+			pd.M["Columns"] = &eng.EIface{T: intT, V: int64(4)}
+			pd.Keys = []any{"Predictor", "Columns"}
+			return &eng.EIface{T: dictT, V: pd}
+		}
 		if v.asName {
 			put("Filter", mkName(v.chain[0]))
 		} else {
@@ -4309,11 +4442,18 @@ func ruleASCIIChainsEvaluated(c *eng.Ctx) {
 			put("Filter", &eng.EIface{T: arrT, V: eng.SliceOf(els...)})
 			if v.parms && nullT != nil {
 				var ps []any
-				for range v.chain {
-					ps = append(ps, &eng.EIface{T: nullT, V: eng.ZeroOf(nullT)})
+				for i := range v.chain {
+					if i < len(v.pred) && v.pred[i] && intT != nil {
+						ps = append(ps, predDict())
+					} else {
+						ps = append(ps, &eng.EIface{T: nullT, V: eng.ZeroOf(nullT)})
+					}
 				}
 				put("DecodeParms", &eng.EIface{T: arrT, V: eng.SliceOf(ps...)})
 			}
+		}
+		if v.single && intT != nil {
+			put("DecodeParms", predDict())
 		}
 		st := eng.ZeroOf(streamT).(*eng.EStruct)
 		eng.SetField(st, streamT, "Dict", d)
@@ -4343,9 +4483,39 @@ func ruleASCIIChainsEvaluated(c *eng.Ctx) {
 			break
 		}
 		out, ok := evalBytes(t[0])
+		if os.Getenv("VDEBUG") != "" {
+			fmt.Fprintf(os.Stderr, "R5.22 %s asName=%v parms=%v pred=%v: %d bytes in, %d out\n", what, v.asName, v.parms, v.pred, len(data), len(out))
+		}
 		if !ok || string(out) != string(raw) {
 			bad = fmt.Sprintf("%s: decodes to %q, the stream holds %q", what, out, raw)
 			break
+		}
+	}
+	// a long run that compresses several hundred to one: all of it comes back (a well-formed stream is not a bomb)
+	if skipped == "" && bad == "" {
+		long := bytes.Repeat([]byte("(the same line of text over and over) Tj\n"), 5000)
+		d := &eng.EMap{M: map[any]any{"Filter": &eng.EIface{T: nameT, V: "FlateDecode"}}, Keys: []any{"Filter"}}
+		st := eng.ZeroOf(streamT).(*eng.EStruct)
+		eng.SetField(st, streamT, "Dict", d)
+		eng.SetField(st, streamT, "Data", eng.BytesOf(flEnc(long)))
+		loc := &eng.ELoc{V: st}
+		recv := &eng.EPtr{Get: func() any { return loc.V }, Set: func(x any) { loc.V = x }, Loc: loc}
+		ev := eng.NewEvaluator()
+		ev.Steps = 3000000
+		got, err := ev.Call(dec, []any{recv}, 0)
+		switch {
+		case err != nil && !err.Panic:
+			skipped = "the long run: " + err.Msg
+		case err != nil:
+			bad = "the long run: " + err.Msg
+		default:
+			n++
+			if t, ok := got.(eng.ETuple); ok && len(t) == 2 {
+				out, _ := evalBytes(t[0])
+				if t[1] != nil || len(out) != len(long) || !bytes.Equal(out, long) {
+					bad = fmt.Sprintf("a stream of %d bytes that compresses to %d comes back as %d bytes (error: %v)", len(long), len(flEnc(long)), len(out), t[1] != nil)
+				}
+			}
 		}
 	}
 	if skipped != "" {
@@ -5760,9 +5930,10 @@ func constructorBypassedRule(id string, pkgs ...string) func(*eng.Ctx) {
 // R4.16 the reader over whole files with revision histories: every number answers with its newest definition.
 
 type revObj struct {
-	num    int
-	delete bool
-	inStm  bool // stored in the revision's object stream (stream revisions only)
+	num     int
+	delete  bool
+	inStm   bool // stored in the revision's object stream (stream revisions only)
+	catalog bool // this object is the catalog (object 1 is, unless some object says so)
 }
 
 type revision struct {
@@ -5785,6 +5956,14 @@ func buildHistory(revs []revision) ([]byte, map[int]string, []int) {
 		}
 	}
 	next := maxNum + 1 // numbers for object streams and cross-reference streams
+	root := 1
+	for _, r := range revs {
+		for _, o := range r.objs {
+			if o.catalog {
+				root = o.num
+			}
+		}
+	}
 	prev := -1
 	size := 0
 	for ri, r := range revs {
@@ -5805,9 +5984,9 @@ func buildHistory(revs []revision) ([]byte, map[int]string, []int) {
 				stmObjs = append(stmObjs, o)
 			default:
 				off := b.Len()
-				if o.num == 1 {
-					fmt.Fprintf(&b, "1 0 obj\n<< /Type /Catalog /Rev %d >>\nendobj\n", ri)
-					want[1] = "Catalog"
+				if o.num == root {
+					fmt.Fprintf(&b, "%d 0 obj\n<< /Type /Catalog /Rev %d >>\nendobj\n", root, ri)
+					want[root] = "Catalog"
 				} else {
 					fmt.Fprintf(&b, "%d 0 obj\n(r%do%d)\nendobj\n", o.num, ri, o.num)
 					want[o.num] = fmt.Sprintf("r%do%d", ri, o.num)
@@ -5850,7 +6029,7 @@ func buildHistory(revs []revision) ([]byte, map[int]string, []int) {
 					fmt.Fprintf(&b, "%010d %05d f \n", e.a, e.b2)
 				}
 			}
-			fmt.Fprintf(&b, "trailer\n<< /Size %d /Root 1 0 R", size)
+			fmt.Fprintf(&b, "trailer\n<< /Size %d /Root %d 0 R", size, root)
 			if prev >= 0 {
 				fmt.Fprintf(&b, " /Prev %d", prev)
 			}
@@ -5873,7 +6052,7 @@ func buildHistory(revs []revision) ([]byte, map[int]string, []int) {
 			fmt.Fprintf(&idx, "%d 1 ", e.num)
 			data = append(data, byte(e.kind), byte(e.a>>24), byte(e.a>>16), byte(e.a>>8), byte(e.a), byte(e.b2>>8), byte(e.b2))
 		}
-		fmt.Fprintf(&b, "%d 0 obj\n<< /Type /XRef /Size %d /W [1 4 2] /Index [%s] /Root 1 0 R", xnum, size, strings.TrimSpace(idx.String()))
+		fmt.Fprintf(&b, "%d 0 obj\n<< /Type /XRef /Size %d /W [1 4 2] /Index [%s] /Root %d 0 R", xnum, size, strings.TrimSpace(idx.String()), root)
 		if prev >= 0 {
 			fmt.Fprintf(&b, " /Prev %d", prev)
 		}
@@ -5920,6 +6099,8 @@ func ruleRevisionHistoriesEvaluated(c *eng.Ctx) {
 		{"deleted, then added again", []revision{{false, []revObj{o(1), o(2), o(3)}}, {false, []revObj{del(2)}}, {false, []revObj{o(2)}}}},
 		{"three stream revisions: a compressed object replaced in a newer object stream", []revision{{true, []revObj{o(1), inS(2), inS(3)}}, {true, []revObj{inS(3), inS(4)}}, {true, []revObj{o(2), del(4)}}}},
 		{"a plain object moved into an object stream", []revision{{false, []revObj{o(1), o(2), o(3), o(4)}}, {true, []revObj{inS(2), inS(4)}}}},
+		{"object 1 deleted in a section of its own (the catalog is object 5)", []revision{{false, []revObj{o(1), o(2), o(3), {num: 5, catalog: true}}}, {false, []revObj{del(1), o(2)}}}},
+		{"a stream revision with three one-entry subsections", []revision{{false, []revObj{o(1), o(2), o(3), o(4), o(5), o(6), o(7)}}, {true, []revObj{o(3), o(5), o(7)}}}},
 	}
 	for _, h := range cases {
 		file, want, nums := buildHistory(h.revs)
